@@ -28,6 +28,21 @@ Theorem C08_restart_refines : forall s a ops,
   run (St (durable (s_mgr s)) ∅) ops = arun (ASt (a_chain a) ∅) ops.
 Proof. exact restart_refines. Qed.
 
+(* for EVERY reachable store (Inv: reached through any history of commits / rollbacks / view traffic), every admissible commit or
+   rollback and every crash point in it: the reopened store refines the specification chain before the operation or the chain
+   after it - so C08_restart_refines applies to whatever the crash left *)
+Theorem C08_crash_in_commit_recovers_to_spec : forall m c prev cid data p k,
+  Inv m c -> wf_op c (OAdd prev cid data p) -> (k <= length (add_writes m prev cid data p))%nat ->
+  Inv (crash_after m (add_writes m prev cid data p) k) c \/
+  Inv (crash_after m (add_writes m prev cid data p) k)
+      (CE cid (abs_apply (a_front c) (p ++ frontier_ops cid data)) (p ++ frontier_ops cid data) :: c).
+Proof. exact crash_in_commit_refines. Qed.
+
+Theorem C08_crash_in_rollback_recovers_to_spec : forall m c k,
+  Inv m c -> c <> [] -> (k <= length (pop_writes m))%nat ->
+  Inv (crash_after m (pop_writes m) k) c \/ Inv (crash_after m (pop_writes m) k) (tail c).
+Proof. exact crash_in_rollback_refines. Qed.
+
 Theorem C08_redeliver : forall m c cid data p,
   Inv m c -> wf_op c (OAdd (a_front_id c) cid data p) ->
   exists m', mgr_add (durable m) (a_front_id c) cid data p = ROk m' true /\
